@@ -324,10 +324,10 @@ class Arbitrage(Harness):
     nontrivial_event = "a hedged basket was emitted"
     bounds = {"quick": "index over 2 or 3 equal-share components; all running / index stopped / a component stopped; polled "
                        "once, and polled twice in one step with a component trade in between; index or one component not "
-                       "accessible to the agent",
+                       "accessible to the agent; a second, untradable index market listed first",
               "thorough": "same"}
     reach = ("nontrivial", "silent-inside-threshold", "index-cheap", "index-rich", "not-running-silent", "second-poll",
-             "no-access-silent")
+             "no-access-silent", "untradable-index-listed-first")
     agreement_runs = 6
 
     def cases(self, tier):
@@ -341,6 +341,10 @@ class Arbitrage(Harness):
             # the agent cannot access the index market / one of the components
             out.append({"n": n, "stop": None, "twice": False, "no_access": "index"})
             out.append({"n": n, "stop": None, "twice": False, "no_access": "component"})
+        # two index markets; the first one in the list is not tradable (stopped, or a component of it stopped):
+        # the agent still acts on the second
+        out.append({"n": 2, "stop": None, "twice": False, "other_index": "index"})
+        out.append({"n": 2, "stop": None, "twice": False, "other_index": "component"})
         return out
 
     def run(self, g, case):
@@ -377,6 +381,29 @@ class Arbitrage(Harness):
         elif case["stop"] == "component":
             comps[-1]._is_running = False
         markets = comps + [idx]
+        if case.get("other_index"):
+            # a second index over two further components, listed before the first one; it cannot be traded
+            oc = []
+            for i in range(2):
+                m, st = _market(sim, n + 1 + i, f"D{i}", price=100)
+                m.setup(st)
+                sim._add_market(m)
+                m._update_time(next_fundamental_price=100.0)
+                m._is_running = True
+                oc.append(m)
+            oidx, st = _market(sim, n + 3, "IDX0", cls=IndexMarket, extra={"markets": [m.name for m in oc]})
+            oidx.setup(st)
+            sim._add_market(oidx)
+            oidx._update_time(next_fundamental_price=100.0)
+            oidx._is_running = case["other_index"] != "index"
+            if case["other_index"] == "component":
+                oc[0]._is_running = False
+            _trade_ok = [m for m in oc if m.is_running]
+            for m in oc + [oidx]:
+                a.set_market_accessible(market_id=m.market_id)
+                a.set_asset_volume(market_id=m.market_id, volume=10)
+            markets = oc + [oidx] + markets
+            g.note("untradable-index-listed-first")
         self.poll(g, a, markets, comps, idx, thr, v, case)
         if case["twice"]:
             g.note("second-poll")
